@@ -240,10 +240,19 @@ func runC14Driver(c bson.D, x *Ctx) (err error) {
 	// Find with projection, twice
 	r1, e1 := findDocs(coll, bson.D{}, options.Find().SetProjection(proj))
 	if overlap {
-		// lungo merges operator results in map order: repeat so that an
-		// order-dependent write into the stored documents shows reliably
+		// operator results for overlapping paths are merged one after the
+		// other: repeat so that an order-dependent outcome, or an
+		// order-dependent write into the stored documents, shows reliably
 		for i := 0; i < 7; i++ {
-			_, _ = findDocs(coll, bson.D{}, options.Find().SetProjection(proj))
+			ri, ei := findDocs(coll, bson.D{}, options.Find().SetProjection(proj))
+			if (e1 == nil) != (ei == nil) {
+				return fmt.Errorf("the same projected Find succeeded once and failed once: %v / %v", e1, ei)
+			}
+			for k := range ri {
+				if ei == nil && k < len(r1) && !equalUpToFieldOrder(r1[k], ri[k]) {
+					return fmt.Errorf("the same projected Find returned different results: %s vs %s", show(r1[k]), show(ri[k]))
+				}
+			}
 		}
 	}
 	mid, e := dump()
